@@ -226,10 +226,12 @@ func (l *Ledger) idleLocked() bool {
 	busy := 0
 	for _, ss := range l.subs {
 		for _, s := range ss {
-			if len(s.queue) != 0 {
-				return false
-			}
-			if !s.inNext {
+			switch {
+			case s.inNext && len(s.queue) != 0:
+				return false // about to wake up
+			case !s.inNext:
+				// handling an event, waiting for a timeout, or no longer reading (a client that
+				// has seen the one event it wanted leaves later events in the queue)
 				busy++
 			}
 		}
